@@ -304,3 +304,15 @@ where
         self.kktsolver.update_A(A);
     }
 }
+
+// read-only accessor for the verification harness
+#[cfg(clarabel_verif)]
+impl<T> DefaultKKTSystem<T>
+where
+    T: FloatT,
+{
+    /// the direct LDL KKT solver behind this system, if that is what it uses
+    pub fn verif_direct(&self) -> Option<&DirectLDLKKTSolver<T>> {
+        self.kktsolver.verif_direct()
+    }
+}
